@@ -92,7 +92,7 @@ def recheck(ids):
             if not own_only:
                 meta['also_reported_by'] = {k: v for k, v in rep.items() if k != own}
             json.dump(meta, open(mp, 'w'), indent=1)
-            print(sid, 'own:', meta['caught_by'][:2], 'others:', sorted(meta['also_reported_by']))
+            print(sid, 'own:', meta['caught_by'][:2], 'others:', sorted(meta.get('also_reported_by') or {}))
         finally:
             shutil.rmtree(sd, ignore_errors=True)
 
